@@ -298,14 +298,29 @@ def run_real(case):
         from checks import c01
         spec = c01.make_spec({"id": case["id"], "fam": "soc",
                               "idx": case["idx"], "seed": case["seed"]})
+    late = False
+    if rng.random() < 0.15:
+        # a quadratic with a full model: the minimiser is found within a few
+        # steps and stays the best point over many reductions of the
+        # resolution (queries are sampled late in the run)
+        n_ = 2
+        spec = gen.general(rng, n=n_, con="none", bound_patterns="none",
+                           obj_kinds=("quad",), with_callback=False,
+                           opt_allow=(), maxfev=(250, 300))
+        spec["options"]["nb_points"] = (n_ + 1) * (n_ + 2) // 2
+        spec["options"]["radius_final"] = 1e-8
+        spec.pop("rtype", None)
+        late = True
     viols = []
     info = {}
-    budget = {"left": 4}
+    budget = {"left": 8 if late else 4}
     seen = {"n": 0}
 
     def on_det(run, models, args, out):
         seen["n"] += 1
-        if budget["left"] <= 0 or rng.random() > 0.2:
+        if late and seen["n"] < 25:
+            return
+        if budget["left"] <= 0 or rng.random() > (0.5 if late else 0.2):
             return
         itp = models.interpolation
         if itp.n > 4:
@@ -314,7 +329,25 @@ def run_real(case):
         if ev is None:
             return
         cond = np.abs(ev).max() / np.abs(ev).min()
-        if not np.isfinite(cond) or cond > 1e8:
+        # The conditioning the property grants is that of the SET: the ratio
+        # is invariant under a change of base point, and the solver keeps its
+        # base within large_shift_factor radii of the best point.  A base left
+        # far behind (never shifted) inflates the conditioning of the system
+        # the solver solves, not of the question asked: the allowance is
+        # capped at 1e6 times the conditioning of the centred set.
+        capped = False
+        ctr = itp.xpt - np.mean(itp.xpt, axis=1, keepdims=True)
+        _s2, ev2, _v2, _b2 = interp.sysinfo(ctr)
+        if ev2 is not None and np.abs(ev2).min() > 0:
+            cond_c = np.abs(ev2).max() / np.abs(ev2).min()
+            if np.isfinite(cond_c) and cond_c * 1e6 < cond:
+                # (on the unchanged tree cond / cond_c stays below 2e5 over
+                # thousands of queries; when the cap binds the set itself is
+                # required to be benign, cond_c <= 1e6)
+                info["base_far_behind"] = info.get("base_far_behind", 0) + 1
+                cond = cond_c * 1e6 if cond_c <= 1e6 else np.inf
+                capped = True
+        if not np.isfinite(cond) or cond > (1e12 if capped else 1e8):
             return
         budget["left"] -= 1
         X = exact.points_of(itp.xpt)
